@@ -200,11 +200,11 @@ Theorem c20_each_call_completes_at_most_once_with_close : forall cfg, 0 < Shutdo
 Proof. exact ShutdownProofs.sd_conservation. Qed.
 Print Assumptions c20_each_call_completes_at_most_once_with_close.
 
-(* The code as it is (Run's drain loop returns only when it reads adding == 0): once Run has returned and every started
-   Add has returned, every call whose Add started has completed exactly once -- no hypothesis on how Add, Run and Close
-   interleave. *)
+(* The code as it is (after finding the queue empty Run reads the counter; at 0 it drains the queue once more and
+   returns when it finds it empty): once Run has returned and every started Add has returned, every call whose Add started
+   has completed exactly once -- no hypothesis on how Add, Run and Close interleave. *)
 Theorem c20_each_call_completes_exactly_once_with_close : forall cfg, 0 < ShutdownModel.sd_cap cfg ->
-  ShutdownModel.sd_wait_for_adders cfg = true -> forall evs,
+  ShutdownModel.sd_rule cfg = ShutdownModel.RuleFinalDrain -> forall evs,
   ShutdownModel.sd_run_done (fst (ShutdownModel.sd_run cfg ShutdownModel.sd_init evs)) = true ->
   ShutdownModel.sd_adds_returned (fst (ShutdownModel.sd_run cfg ShutdownModel.sd_init evs)) ->
   Permutation (ShutdownModel.sd_submitted evs)
@@ -213,17 +213,27 @@ Proof. exact ShutdownProofs.sd_exactly_once_with_close. Qed.
 Print Assumptions c20_each_call_completes_exactly_once_with_close.
 
 (* The code as it was found (Run returns as soon as the queue is empty): Add passes the closed check, Close, Run drains
-   an empty queue and returns, Add enqueues and returns -- the call is never completed (reproduced on the real batcher,
-   fixed by commit cb6e33f). *)
+   an empty queue and returns, Add enqueues and returns -- the call is never completed (reproduced on the real batcher). *)
 Theorem c20_each_call_completes_exactly_once_with_close_old_refuted :
-  exists cfg evs, 0 < ShutdownModel.sd_cap cfg /\ ShutdownModel.sd_wait_for_adders cfg = false /\
+  exists cfg evs, 0 < ShutdownModel.sd_cap cfg /\ ShutdownModel.sd_rule cfg = ShutdownModel.RuleQueueEmpty /\
     let (s, o) := ShutdownModel.sd_run cfg ShutdownModel.sd_init evs in
     ShutdownModel.sd_run_done s = true /\ ShutdownModel.sd_adds_returned s /\ ShutdownModel.sd_q s = [1%N] /\
     ShutdownModel.sd_submitted evs = [1%N] /\ ShutdownProofs.done_ids o = [].
 Proof. exact ShutdownProofs.sd_old_drain_rule_refuted. Qed.
 Print Assumptions c20_each_call_completes_exactly_once_with_close_old_refuted.
 
-(* what held of the old rule (and holds of both): exactly once when no Add was between its closed-check and its send at
+(* The first repair (commit cb6e33f: after finding the queue empty Run returns when it reads adding == 0): the Add enqueues
+   and decrements between the two steps -- same loss, a much narrower window (reproduced on the real batcher: a handful
+   of lost calls per million closes under load). *)
+Theorem c20_each_call_completes_exactly_once_with_close_first_repair_refuted :
+  exists cfg evs, 0 < ShutdownModel.sd_cap cfg /\ ShutdownModel.sd_rule cfg = ShutdownModel.RuleCounterAfterEmpty /\
+    let (s, o) := ShutdownModel.sd_run cfg ShutdownModel.sd_init evs in
+    ShutdownModel.sd_run_done s = true /\ ShutdownModel.sd_adds_returned s /\ ShutdownModel.sd_q s = [1%N] /\
+    ShutdownModel.sd_submitted evs = [1%N] /\ ShutdownProofs.done_ids o = [].
+Proof. exact ShutdownProofs.sd_counter_after_empty_rule_refuted. Qed.
+Print Assumptions c20_each_call_completes_exactly_once_with_close_first_repair_refuted.
+
+(* what holds of every drain rule: exactly once when no Add was between its closed-check and its send at
    the moment of Close *)
 Theorem c20_each_call_completes_exactly_once_old_partial : forall cfg, 0 < ShutdownModel.sd_cap cfg -> forall evs,
   ShutdownModel.sd_overlapped (fst (ShutdownModel.sd_run cfg ShutdownModel.sd_init evs)) = false ->
